@@ -35,13 +35,17 @@ RULE = (
     "float32 / 5-6 decimals; distance cases are 3-8 points on the sphere built from "
     "free points plus copies, antipodes, poles, same-meridian/parallel "
     "points and 360 deg aliases, evaluated as full n x n matrices, plus a "
-    "common longitude shift.  An enumerated grid of special latitudes x "
+    "common longitude shift, and (one case in three) 2-6 whole-degree "
+    "points as int8..int64 latitudes and uint8..uint64/int16/int32 "
+    "longitudes compared with the float64 evaluation.  An enumerated grid of special latitudes x "
     "longitudes x heights x ellipsoids is run through scalar and 1-D calls.  "
     "History cases (and half of the conversion cases, in short form) put a "
     "generated sequence of 1-8 calls of other public functions "
     "(get_ellipsoid_semiminor_axis, ellipsoid_r_geocentric/_geodetic, "
     "line_ellipsoid_intersect, geodetic2cart/cart2geodetic, ellipsoid2d, "
-    "ellipsoidcurvradius) on related ellipsoids - (a, 0), (a, e/2), (a, e'), "
+    "ellipsoidcurvradius, due north/south line-of-sight round trips, and "
+    "out-of-domain calls that may raise: polar axis, origin, r = 0, "
+    "latitude/longitude out of range) on related ellipsoids - (a, 0), (a, e/2), (a, e'), "
     "(k a, e), ellipsoid2d(model, inc), ellipsoidcurvradius(model, lat, az), "
     "the other models, as tuple/list/array - before and between the identity "
     "checks, each call compared with its own closed form; the identity "
@@ -63,8 +67,13 @@ ASSUMPTIONS = [
     "docstring: 'single number or numpy array'; it stacks columns, so N-d "
     "input is not supported and not claimed)",
     "numpy.longdouble is the x87 80-bit type (eps 1.1e-19)",
-    "every typhon.geodesy call goes through an 'arguments are not modified' "
-    "guard (bitwise comparison of every ndarray argument with a copy)",
+    "every typhon.geodesy call goes through the guard of "
+    "vp/oracle/c07_guard.py: ndarray arguments bitwise unchanged, results of "
+    "earlier calls bitwise unchanged by later calls and not sharing memory "
+    "with new results, numpy error state and warnings filters unchanged "
+    "after the call (also when it raised)",
+    "integer coordinate arrays: numpy computes sin/cos of (u)int8 in float16 "
+    "and of (u)int16 in float32; the tolerance is 16 eps of that precision",
     "state that typhon.geodesy keeps between calls survives between the "
     "cases of one shard process; the check cannot reset it, so every case "
     "compares all results (also those for the derived ellipsoids) with "
@@ -538,7 +547,10 @@ def special_grid_cases():
 HIST_ELLS = ["sphere-same-a", "sphere-same-a", "half-e", "other-e",
              "same-e-other-a", "ellipsoid2d", "curvradius", "curvradius",
              "other-model", "self"]
-HIST_OPS = ["semiminor", "r_geocentric", "r_geodetic", "intersect",
+HIST_BAD = ["bad-polar-axis", "bad-origin", "bad-r0", "bad-lat-range",
+            "bad-lon-range", "bad-mean-origin"]
+HIST_OPS = ["ns-los", "ns-los", "out-of-domain", "out-of-domain",
+            "semiminor", "r_geocentric", "r_geodetic", "intersect",
             "roundtrip", "ellipsoid2d", "curvradius", "surface-radius"]
 HIST_LATS = np.array([-88.0, -45.0, -10.0, 0.0, 33.0, 60.0, 88.0])
 
@@ -642,7 +654,58 @@ def history_step(ctx, g, el, step):
         return "history step %s on %s = (%r, %r) [model %r]" % (
             op, step["ell"], A, E, tuple(el))
 
-    if op == "semiminor":
+    if op == "out-of-domain":
+        # a call outside the documented domain: it may raise or return
+        # anything, but it must leave no trace (the guard compares numpy's
+        # error state before and after it, also when it raises)
+        bad = step["bad"]
+        ctx.label("hist-" + bad)
+        ecc = arg if E > 0 else (6378137, 0.0818191908426)
+        try:
+            if bad == "bad-polar-axis":
+                g.cart2geodetic(0.0, 0.0, A + 1e5, ecc)
+                g.cart2geodetic(np.array([0.0, 1e6]), np.array([0.0, 0.0]),
+                                np.array([A, A]), ecc)
+            elif bad == "bad-origin":
+                g.cart2geodetic(0.0, 0.0, 0.0, ecc)
+            elif bad == "bad-r0":
+                g.geocentric2geodetic(0.0, float(step["lat"]),
+                                      float(step["lon"]), ecc)
+            elif bad == "bad-lat-range":
+                g.geocentricposlos2cart(A, 95.0, 0.0, 10.0, 10.0)
+            elif bad == "bad-lon-range":
+                g.geocentricposlos2cart(A, 10.0, 200.0, 10.0, 10.0)
+            else:
+                g.geographic_mean(np.array([10.0, -10.0]),
+                                  np.array([0.0, 180.0]), 0.0, ecc)
+        except Exception as exc:      # noqa - out of domain: any exception
+            # is fine, except the guard's verdict (the runner executes as
+            # __main__, so its Violation class is matched by name)
+            if type(exc).__name__ == "Violation":
+                raise
+            ctx.label("hist-bad-call-raised")
+    elif op == "ns-los":
+        # lines of sight due north / south (azimuth exactly 0 / +-180): the
+        # cosine of the azimuth is 1 +- rounding
+        aa0 = [0.0, 180.0, -180.0][int(step["az"]) % 3]
+        zas = np.array([float(step["za"]), 90.0, 180.0 - float(step["za"])])
+        lat0, lon0 = float(step["lat"]), float(step["lon"])
+        out = g.geocentricposlos2cart(A + float(step["alt"]) + 4e5, lat0,
+                                      lon0, zas, aa0)
+        rl = ref_los(lat0, lon0, zas, aa0)
+        err = max(_maxerr(out[3 + i], rl[i]) for i in range(3))
+        ctx.check(err <= 1e-12, "reference/poslos-los", lambda: (
+            "%s, lat=%r lon=%r za=%r aa=%r: LOS error %.3e"
+            % (info(), lat0, lon0, zas.tolist(), aa0, err)))
+        back = g.cartposlos2geocentric(*out)
+        dza = float(np.max(np.abs(back[3] - zas)))
+        daa = np.deg2rad(np.abs(lon_diff(back[4], aa0)))
+        ctx.check(dza <= 1e-6 and np.all(daa <= aa_tol(zas, aa0)),
+                  "roundtrip/poslos-north-south", lambda: (
+                      "%s, lat=%r lon=%r za=%r aa=%r: got za=%r aa=%r"
+                      % (info(), lat0, lon0, zas.tolist(), aa0,
+                         back[3].tolist(), back[4].tolist())))
+    elif op == "semiminor":
         b = g.get_ellipsoid_semiminor_axis(arg)
         bref = float(LD(A) * np.sqrt(1 - LD(E) * LD(E)))
         ctx.check(abs(float(b) - bref) <= 1e-14 * bref,
@@ -818,6 +881,7 @@ def history_steps(draw, lo, hi):
         steps.append({
             "ell": draw(st.sampled_from(HIST_ELLS)),
             "op": draw(st.sampled_from(HIST_OPS)),
+            "bad": draw(st.sampled_from(HIST_BAD)),
             "as": draw(st.sampled_from(["tuple", "tuple", "list", "array"])),
             # exactly spherical or clearly eccentric: ellipsoid2d takes
             # sqrt(1 - (r_p/a)^2), which is NaN/noise for 0 < e < ~1e-7 (not
@@ -981,6 +1045,17 @@ def check_los(case, ctx):
         ctx.check(dza <= 1e-6, "roundtrip/poslos-zenith", lambda: (
             "%s, LOS %s: zenith angle error %.3e deg (got %r, expected %r)"
             % (info(), los_info, dza, za2.tolist(), ZAe.tolist())))
+        # a second conversion of the same shape (mirrored zenith angles):
+        # the guard verifies that the first results are still what they were
+        # and that the new ones do not share memory with them
+        out2 = g.geocentricposlos2cart(R, LAT, LON, 180.0 - ZAb, AA)
+        rl2 = ref_los(LATb, LONb, 180.0 - ZAb, AAb)
+        el2 = max(_maxerr(out2[3 + i], rl2[i]) for i in range(3))
+        el1 = max(_maxerr((dx, dy, dz)[i], rl[i]) for i in range(3))
+        ctx.check(el2 <= 1e-12 and el1 <= 1e-12, "reference/poslos-los-second",
+                  lambda: "%s: after a second call of the same shape the "
+                  "LOS vectors differ from the closed form by %.3e (first "
+                  "call) and %.3e (second call)" % (info(), el1, el2))
         daa = np.deg2rad(np.abs(lon_diff(aa2, AAe)))
         lim = np.where(regular, aa_tol(ZAe, AAe), np.inf)
         ctx.check(np.all(daa <= lim), "roundtrip/poslos-azimuth", lambda: (
@@ -1164,6 +1239,7 @@ def check_distance(case, ctx):
               "tunnel/longitude-shift", lambda: (
                   "%s: changes by %.3e m" % (info(),
                                              float(np.max(np.abs(T2 - T))))))
+    int_grid_checks(ctx, g, case, RE)
     # scalar and mixed calls on a few pairs
     for (p, q) in case["scalar_pairs"]:
         p, q = p % n, q % n
@@ -1188,6 +1264,85 @@ def check_distance(case, ctx):
         ctx.check(np.shape(t) == (n,) and np.all(
             np.abs(t - T[:, q]) <= 1e-13 * RE), "tunnel/broadcast-vs-array",
             lambda: "%r: %r vs %r" % (args, t, T[:, q]))
+
+
+def int_grid_checks(ctx, g, case, RE):
+    """whole-degree coordinates in narrow / unsigned integer dtypes: the
+    same values as float64 give the reference.  NumPy evaluates sin/cos of
+    (u)int8 in float16 and of (u)int16 in float32, so the tolerance follows
+    the precision that the argument dtypes select."""
+    grid = case.get("int_grid")
+    if not grid:
+        return
+    la = np.array([p[0] for p in grid["pts"]], dtype=grid["lat_dtype"])
+    lo = np.array([p[1] for p in grid["pts"]], dtype=grid["lon_dtype"])
+    ctx.label("int-grid", "int-grid-lat-" + grid["lat_dtype"],
+              "int-grid-lon-" + grid["lon_dtype"])
+    eps = max(float(np.finfo(np.deg2rad(v[:1]).dtype).eps) for v in (la, lo))
+    laf, lof = la.astype(float), lo.astype(float)
+    n = len(la)
+
+    def info():
+        return "lat=%r (%s) lon=%r (%s)" % (la.tolist(), la.dtype,
+                                            lo.tolist(), lo.dtype)
+
+    D = g.great_circle_distance(la[:, None], lo[:, None], la[None, :],
+                                lo[None, :])
+    ref, chord = ref_arc_chord(laf[:, None], lof[:, None], laf[None, :],
+                               lof[None, :])
+    ref = ref.astype(float)
+    ctx.check(np.shape(D) == (n, n), "shape/great_circle_distance",
+              lambda: repr(np.shape(D)))
+    D = np.asarray(D, dtype=float)
+    ctx.check(np.array_equal(D, D.T, equal_nan=True), "gcd/asymmetric",
+              lambda: "%s: d(p,q) != d(q,p):\n%r" % (info(), D.tolist()))
+    # away from the antipode (where arcsin(sqrt(a)) may see a > 1 in low
+    # precision) the distance is that of the float64 evaluation
+    with np.errstate(all="ignore"):
+        tol = (16 * eps * (1 + ref) + np.minimum(
+            16 * eps * np.abs(np.tan(ref / 2)), 6 * np.sqrt(eps)))
+    far = ref <= np.pi - 8 * np.sqrt(eps)
+    err = np.abs(np.deg2rad(D) - ref)
+    ctx.check(np.all((err <= tol)[far]), "gcd/integer-coordinates", lambda: (
+        "%s: distances [deg] %r, for the same values as float64 %r"
+        % (info(), D.tolist(), np.rad2deg(ref).tolist())))
+    p, q = 0, n - 1
+    d1 = g.great_circle_distance(la[p], lo[p], la[q], lo[q])
+    d2 = g.great_circle_distance(la[q], lo[q], la[p], lo[p])
+    ctx.check(np.array_equal(d1, d2, equal_nan=True) and (
+        not far[p, q] or abs(np.deg2rad(float(d1)) - ref[p, q]) <= tol[p, q]),
+        "gcd/integer-coordinates-scalar", lambda: (
+            "%s: scalar call on the first and last point: %r one way, %r the "
+            "other way, float64: %r" % (info(), d1, d2,
+                                        float(np.rad2deg(ref[p, q])))))
+    if eps > 1e-6:
+        # 8-bit coordinates select float16, in which a planet radius
+        # overflows (inf/NaN on the unchanged tree, not claimed): only the
+        # angular distance is compared for them
+        ctx.label("int-grid-8bit")
+        return
+    i, j = np.meshgrid(np.arange(n), np.arange(n), indexing="ij")
+    i, j = i.ravel(), j.ravel()
+    T = np.asarray(g.tunnel_distance(la[i], lo[i], la[j], lo[j]),
+                   float).reshape(n, n)
+    Tref = (chord * LD(RE)).astype(float)
+    ctx.check(np.all(np.abs(T - Tref) <= 16 * eps * RE) and np.array_equal(
+        T, T.T), "tunnel/integer-coordinates", lambda: (
+            "%s: tunnel distances %r, float64: %r" % (info(), T.tolist(),
+                                                      Tref.tolist())))
+    # the conversions that take latitude / longitude
+    a, e = 6378137, 0.0818191908426
+    lat88 = np.clip(la, -88, 88)
+    for name, got, ref3 in (
+            ("geodetic2cart", g.geodetic2cart(100.0, lat88, lo, (a, e)),
+             ref_geodetic2cart(a, e, 100.0, lat88.astype(float), lof)),
+            ("geocentric2cart", g.geocentric2cart(7e6, la, lo),
+             ref_geocentric2cart(7e6, laf, lof))):
+        err3 = max(_maxerr(np.broadcast_to(got[k], (n,)), ref3[k])
+                   for k in range(3))
+        ctx.check(err3 <= 16 * eps * 7e6, "integer-coordinates/" + name,
+                  lambda: "%s: %s is %.3e m away from the float64 "
+                  "evaluation" % (info(), name, err3))
 
 
 @st.composite
@@ -1235,20 +1390,36 @@ def distance_cases(draw):
                               69911000.0]))
     pairs = draw(st.lists(st.tuples(st.integers(0, 7), st.integers(0, 7)),
                           min_size=1, max_size=3))
-    return {"pts": pts, "shift": shift, "r": r,
+    grid = None
+    if draw(st.integers(0, 2)) == 0:
+        lat_dtype = draw(st.sampled_from(["int8", "int8", "int16", "int32",
+                                          "int64"]))
+        lon_dtype = draw(st.sampled_from(["uint8", "uint16", "uint16",
+                                          "uint32", "uint32", "uint64",
+                                          "int16", "int32"]))
+        lon_lo, lon_hi = {"uint8": (0, 255), "int16": (-180, 180),
+                          "int32": (-180, 180)}.get(lon_dtype, (0, 359))
+        ilat = st.one_of(st.integers(-90, 90),
+                         st.sampled_from([-90, -60, 0, 70, 90]))
+        ilon = st.one_of(st.integers(lon_lo, lon_hi),
+                         st.sampled_from([lon_lo, lon_hi, 1, 90, 180]))
+        grid = {"lat_dtype": lat_dtype, "lon_dtype": lon_dtype,
+                "pts": draw(st.lists(st.tuples(ilat, ilon).map(list),
+                                     min_size=2, max_size=6))}
+    return {"pts": pts, "shift": shift, "r": r, "int_grid": grid,
             "scalar_pairs": [list(p) for p in pairs]}
 
 
 def suites(tier):
     return [
         Suite("convert", check_convert, strategy=convert_cases(),
-              examples={"quick": 1300, "thorough": 12000}),
+              examples={"quick": 1100, "thorough": 12000}),
         Suite("special-grid", check_convert, cases=special_grid_cases,
               exhaustive=True),
         Suite("history", check_history, strategy=history_cases(),
-              examples={"quick": 500, "thorough": 5000}),
+              examples={"quick": 450, "thorough": 5000}),
         Suite("los", check_los, strategy=los_cases(),
-              examples={"quick": 1200, "thorough": 10000}),
+              examples={"quick": 1000, "thorough": 10000}),
         Suite("distance", check_distance, strategy=distance_cases(),
               examples={"quick": 1200, "thorough": 10000}),
     ]
